@@ -1,8 +1,21 @@
-//! stub — to be implemented
+//! C10 — worker hand-over and soft stop lose no listener and cut no request.
+//!
+//! Monitors: (A) fd hand-off codec (`scm::run_scm`, implemented); (B) in-process hand-over under
+//! traffic and (C) system lab are added to this file later and must be called from `run` after
+//! `run_scm` (which must run while no other harness thread opens or closes file descriptors: its
+//! fd census is process wide; the identity-based leak scan it also performs is not affected).
+
+mod scm;
+
 use crate::common::{Ctx, Report};
 
-pub fn run(_ctx: &Ctx) -> Report {
-    let mut rep = Report::new("exploration", "not implemented");
-    rep.broken("check not implemented yet");
+pub use scm::run_scm;
+
+pub fn run(ctx: &Ctx) -> Report {
+    let mut rep = Report::new(
+        "fault_enumeration",
+        "(A) fd hand-off codec: every listener count 0..=201 (+253, 254) x address-text class (shortest/longest bindable IPv4, shortest/longest bindable IPv6, mixed) x protocol mix (http, tls, tcp, udp, four-way, tcp+udp) is sent through ScmSocket::send_listeners / receive_listeners over a fresh socketpair with real listening sockets; a case is non-trivial when it carries at least one listener; distinct = distinct (class, mix, count)",
+    );
+    run_scm(ctx, &mut rep);
     rep
 }
